@@ -153,6 +153,29 @@ CLAIMED = {
             "Trusted: symx engine, z3 5.1, SymFile and list-based bytearray/bitarray stand-ins. Bound: 16 input bits quick, 24-32 thorough "
             "(values < 2^12); negative block lengths only for the bitstream reader.",
             "symbolic execution of the real Python I/O classes (symx) + z3 Int, unsat per path", "3 C20"),
+    "C25": (MC,
+            "The real command (vc2_bitstream_validator.main -> BitstreamValidator.run) is executed symbolically on fixture streams with "
+            "symbolic byte regions / truncation point; on every path its return code is compared with a direct run of the real decoder on "
+            "the same symbolic file (0 iff accepted, 2 iff ConformanceError, never anything else, never an escaping exception), the arguments "
+            "of every picture write (file name numbering from 0 in decode order, picture, video parameters, coding mode; z3 equality per "
+            "sample) with the decoder's callback output, and the located explanation / error line on code 2. Every path's model is then "
+            "run through the real command on real files: same exit status, numbered raw+json pairs, contents read back with "
+            "file_format.read equal the decoder's pictures.",
+            "Trusted: symx, z3, SymFile behind open(), os.path.getsize and write() replaced in the command module on the symbolic side. "
+            "Text rendering of symbolic values uses each path's representative value (format_shadow): formatting failures that depend on "
+            "a value without any Python branch depending on it are outside. Bound: regions as C02 (1-byte windows inside data units at quick tier).",
+            "symbolic execution of the real command and decoder on the same symbolic file (symx), z3 per path; each path replayed on real files", "3 C25"),
+    "C26": (MC,
+            "The real command (vc2_bitstream_viewer.main -> BitstreamViewer.run with its monitor, _print_value, format_value_line, "
+            "is_internal_error, string formatters) is executed symbolically on fixture streams with symbolic byte regions, a symbolic "
+            "stream prefix, and every truncation point, under default options and six option sets; on every path (feasibility by z3) "
+            "the exit status must be 0, 2, 3 or 4 -- 255 or an exception escaping main() is a violation with the model's bytes as witness; "
+            "all four statuses must be reached; every path's model is run through the real command on a real file (same status).",
+            "Trusted: symx, z3, SymFile behind open(), os.path.getsize replaced in the command module on the symbolic side, serdes "
+            "resource bounds (out-of-scope paths counted). Text rendering of symbolic values uses each path's representative value "
+            "(format_shadow): formatter failures that depend on a value without any Python branch depending on it are outside. "
+            "Bound: regions of 1-5 bytes on 8 (quick) / all (thorough) fixtures, 6-8 byte stream prefix.",
+            "symbolic execution of the real viewer command (symx) over symbolic byte regions, z3 path feasibility; each path replayed on a real file", "3 C26"),
     "C11": (MC,
             "Symbolic execution of the real dwt_pad_addition/dwt/idwt/idwt_pad_removal on components whose samples are unbounded symbolic "
             "integers: one path per (filter pair, depths, size, component); every sample of the reconstruction is proved equal to the input "
@@ -177,8 +200,6 @@ NA = {
     "C22": "picture generators are numpy float pipelines (matmul, power, linalg.inv, PIL resampling): C-extension boundaries concretise every input and floats are out of reach of the engine",
     "C23": "byte packing is inline numpy over uint8/object arrays, metadata goes through json and the file system; a numpy stand-in would re-model the library rather than execute the code",
     "C24": "quantifier is over OS process schedules and hash seeds; nothing a solver can encode from the Python source",
-    "C25": "command-line behaviour (exit status, stdout/stderr, files written); the verdict logic it wraps is C02's",
-    "C26": "an internal error can only originate in the viewer's formatting/monitor code, which is exactly what a symbolic engine must concretise or stub (str.format on every value)",
 }
 
 PENDING_REASON = "check not built yet in this session (planned, see DESIGN.md section 3); not claimed until its quick command passes on the unchanged tree"
